@@ -1,9 +1,18 @@
 ----------------------------- MODULE MultiChan -----------------------------
 (***************************************************************************)
-(* L2 (implementation-shaped) specification of the Arc-based atomic Multi   *)
-(* channel, one action per scheduling point of the real code:               *)
+(* L2 (implementation-shaped) specification of the atomic Multi channels,   *)
+(* Arc-based (Kind = "arc") and OgreArc-based (Kind = "ogre"), one action   *)
+(* per scheduling point of the real code:                                   *)
 (*   /repo/src/multi/channels/arc/atomic.rs   send / send_derived (fan-out  *)
 (*        over the live-listener list), consume, drop_resources             *)
+(*   /repo/src/multi/channels/ogre_arc/atomic.rs   the same over pooled     *)
+(*        payloads: OgreArc::new (a slot id from the allocator's free list, *)
+(*        references_count = 1), references += running_streams_count, one   *)
+(*        raw copy per listed listener (the first `count` entries of the    *)
+(*        list, holes skipped), the sender's own handle dropped at the end; *)
+(*        every handle drop is references.fetch_sub(1), the one that finds  *)
+(*        1 destroys the payload and returns the slot to the free list      *)
+(*   /repo/src/ogre_std/ogre_alloc/{ogre_arc,ogre_array_pool_allocator}.rs  *)
 (*   /repo/src/ogre_std/ogre_queues/atomic/atomic_move.rs   one AtomicMove  *)
 (*        ring PER LISTENER (the enqueue / dequeue protocol of RingAtomic,  *)
 (*        here indexed by the stream id)                                    *)
@@ -46,13 +55,17 @@
 (*   C10  a listener created between sends gets nothing sent before it was  *)
 (*        created (leftovers of an earlier holder of the id included)       *)
 (*   C17  listener churn DURING a send (expected to fail: recorded finding) *)
+(*   C05 / C14 (Kind = "ogre")  a payload is destroyed exactly when its     *)
+(*        last handle goes, never while a copy sits in a listener's ring or *)
+(*        is held; every event delivered to all is destroyed (no leak)      *)
 (***************************************************************************)
 EXTENDS Integers, Sequences, FiniteSets, TLC
 
 CONSTANTS N,        \* BUFFER_SIZE of every listener's ring (power of 2)
           W,        \* counter modulus (multiple of N; 2^32 in the code)
           MaxS,        \* MAX_STREAMS
-          Procs     \* threads
+          Procs,    \* threads
+          Kind      \* "arc" | "ogre"
 
 MAX == 99                      \* the u32::MAX sentinel of the live-listener list
 NoW == -1                      \* wakers[s] = None; otherwise the task (thread) whose waker was registered last
@@ -67,16 +80,19 @@ VARIABLES rh, rt, re, rdh, rbuf,                          \* per ring: head, tai
           used, count, vac, vlock, slock, created, finished,  \* streams manager
           waker, wlock, keep, notified,                   \* wakers, their lock, keep_streams_running; the tasks' sticky notification
           pc, reg,                                        \* per thread
-          got, old, owed, done, life                      \* ghost
+          got, old, owed, done, life,                     \* ghost
+          refs, dead, uaf, pl                             \* Kind = "ogre": references_count per event (by value), destroyed events, a handle used
+                                                          \* after its event was destroyed, the free list's four counters
 
 ring == <<rh, rt, re, rdh, rbuf>>
 sm   == <<used, count, vac, vlock, slock, created, finished>>
 wk   == <<waker, wlock, keep, notified>>
 gh   == <<got, old, owed, done, life>>
-mvars == <<ring, sm, wk, pc, reg, gh>>
+og   == <<refs, dead, uaf, pl>>
+mvars == <<ring, sm, wk, pc, reg, gh, og>>
 
 NoTgt == [j \in Ids |-> MAX]
-NoReg == [op |-> "none", v |-> 0, sid |-> 0, i |-> 0, slot |-> 0, lenb |-> 0, val |-> 0, res |-> "", rv |-> 0, tgt |-> NoTgt, k |-> 0, snap |-> {}]
+NoReg == [op |-> "none", v |-> 0, sid |-> 0, i |-> 0, slot |-> 0, lenb |-> 0, val |-> 0, res |-> "", rv |-> 0, tgt |-> NoTgt, k |-> 0, snap |-> {}, n |-> 0, hv |-> 0, ps |-> 0]
 
 RECURSIVE SortedSeq(_)
 SortedSeq(set) == IF set = {} THEN <<>> ELSE LET m == CHOOSE x \in set : \A y \in set : x <= y IN <<m>> \o SortedSeq(set \ {m})
@@ -93,6 +109,7 @@ MInit(Initial) ==
     /\ pc = [p \in Procs |-> "idle"] /\ reg = [p \in Procs |-> NoReg]
     /\ got = [s \in Ids |-> <<>>] /\ old = [s \in Ids |-> {}] /\ owed = [s \in Ids |-> {}] /\ done = {}
     /\ life = [s \in Ids |-> IF s \in Initial THEN "live" ELSE "none"]
+    /\ refs = <<>> /\ dead = {} /\ uaf = FALSE /\ pl = [dh |-> 0, h |-> 0, e |-> N, t |-> N]
 
 \* (trace validation) a fresh channel with listeners `Initial`
 ResetTo(Initial) ==
@@ -104,6 +121,7 @@ ResetTo(Initial) ==
     /\ pc' = [p \in Procs |-> "idle"] /\ reg' = [p \in Procs |-> NoReg]
     /\ got' = [s \in Ids |-> <<>>] /\ old' = [s \in Ids |-> {}] /\ owed' = [s \in Ids |-> {}] /\ done' = {}
     /\ life' = [s \in Ids |-> IF s \in Initial THEN "live" ELSE "none"]
+    /\ refs' = <<>> /\ dead' = {} /\ uaf' = FALSE /\ pl' = [dh |-> 0, h |-> 0, e |-> N, t |-> N]
 
 Wake(s, nf) == IF waker[s] = NoW THEN nf ELSE [nf EXCEPT ![waker[s]] = TRUE]
 \* the concrete content of ring r, oldest first
@@ -114,49 +132,53 @@ Q(r) == [i \in 1..Sub(rt[r], rh[r]) |-> rbuf[r][Idx(Add(rh[r], i - 1))]]
 
 CallSend(p, v) ==
     /\ pc[p] = "idle"
-    /\ pc' = [pc EXCEPT ![p] = "F0"]
+    /\ pc' = [pc EXCEPT ![p] = IF Kind = "ogre" THEN "A1" ELSE "F0"]
     /\ reg' = [reg EXCEPT ![p] = [NoReg EXCEPT !.op = "send", !.v = v]]
     /\ owed' = [s \in Ids |-> IF life[s] = "live" THEN owed[s] \cup {v} ELSE owed[s]]
-    /\ UNCHANGED <<ring, sm, wk, got, old, done, life>>
+    /\ UNCHANGED <<ring, sm, wk, got, old, done, life, og>>
 
 CallPoll(p, s) ==
     /\ pc[p] = "idle"
     /\ pc' = [pc EXCEPT ![p] = "D1"]
     /\ reg' = [reg EXCEPT ![p] = [NoReg EXCEPT !.op = "poll", !.sid = s]]
-    /\ UNCHANGED <<ring, sm, wk, gh>>
+    /\ UNCHANGED <<ring, sm, wk, gh, og>>
 
 CallCreate(p) ==
     /\ pc[p] = "idle"
     /\ pc' = [pc EXCEPT ![p] = "C1"]
     /\ reg' = [reg EXCEPT ![p] = [NoReg EXCEPT !.op = "create", !.snap = done]]
-    /\ UNCHANGED <<ring, sm, wk, gh>>
+    /\ UNCHANGED <<ring, sm, wk, gh, og>>
 
 CallDrop(p, s) ==
     /\ pc[p] = "idle"
     /\ pc' = [pc EXCEPT ![p] = "D1"]
     /\ reg' = [reg EXCEPT ![p] = [NoReg EXCEPT !.op = "drop", !.sid = s]]
     /\ life' = [life EXCEPT ![s] = "dropping"]
-    /\ UNCHANGED <<ring, sm, wk, got, old, owed, done>>
+    /\ UNCHANGED <<ring, sm, wk, got, old, owed, done, og>>
 
 CallCancel(p) ==
     /\ pc[p] = "idle"
     /\ pc' = [pc EXCEPT ![p] = "X1"]
     /\ reg' = [reg EXCEPT ![p] = [NoReg EXCEPT !.op = "cancel"]]
-    /\ UNCHANGED <<ring, sm, wk, gh>>
+    /\ UNCHANGED <<ring, sm, wk, gh, og>>
 
 -----------------------------------------------------------------------------
 \* send_derived: the fan-out loop
 
 \* where the sender goes after it is done with entry i
-AfterEntry(p) == IF reg[p].i + 1 < MaxS THEN "F0" ELSE "cret"
+\* (Kind = "ogre": the loop is bounded by the count sampled before it; then the sender's own handle goes)
+AfterEntry(p) == IF Kind = "ogre" THEN (IF reg[p].i + 1 < reg[p].n THEN "F0" ELSE "H1")
+                 ELSE IF reg[p].i + 1 < MaxS THEN "F0" ELSE "cret"
 
 FanRead(p) ==      \* [y multi.used.read] the entry is read after the yield
     /\ pc[p] = "F0"
     /\ LET id == used[reg[p].i] IN
        IF id = MAX
-       THEN /\ pc' = [pc EXCEPT ![p] = "cret"] /\ reg' = [reg EXCEPT ![p].res = "ok"]
+       THEN IF Kind = "ogre"        \* a hole: no copy for this entry, on to the next one
+            THEN /\ pc' = [pc EXCEPT ![p] = AfterEntry(p)] /\ reg' = [reg EXCEPT ![p].i = @ + 1, ![p].res = "ok"]
+            ELSE /\ pc' = [pc EXCEPT ![p] = "cret"] /\ reg' = [reg EXCEPT ![p].res = "ok"]
        ELSE /\ pc' = [pc EXCEPT ![p] = "E1"] /\ reg' = [reg EXCEPT ![p].sid = id, ![p].res = "ok"]
-    /\ UNCHANGED <<ring, sm, wk, gh>>
+    /\ UNCHANGED <<ring, sm, wk, gh, og>>
 
 EnqFA(p) ==        \* enqueuer_tail.fetch_add(1) of ring sid
     /\ pc[p] = "E1"
@@ -164,7 +186,7 @@ EnqFA(p) ==        \* enqueuer_tail.fetch_add(1) of ring sid
        /\ reg' = [reg EXCEPT ![p].slot = re[r]]
        /\ re' = [re EXCEPT ![r] = Add(@, 1)]
     /\ pc' = [pc EXCEPT ![p] = "E2"]
-    /\ UNCHANGED <<rh, rt, rdh, rbuf, sm, wk, gh>>
+    /\ UNCHANGED <<rh, rt, rdh, rbuf, sm, wk, gh, og>>
 
 EnqLoadHead(p) ==  \* head.load; room -> the clone is written into the slot
     /\ pc[p] = "E2"
@@ -177,7 +199,7 @@ EnqLoadHead(p) ==  \* head.load; room -> the clone is written into the slot
        ELSE /\ reg' = [reg EXCEPT ![p].lenb = lb]
             /\ pc' = [pc EXCEPT ![p] = "E3"]
             /\ UNCHANGED rbuf
-    /\ UNCHANGED <<rh, rt, re, rdh, sm, wk, gh>>
+    /\ UNCHANGED <<rh, rt, re, rdh, sm, wk, gh, og>>
 
 \* a full listener ring: the reservation is given back, the listener is woken, and the sender sleeps 500 ms and tries again
 \* (outside the bound of C03 -- fewer than BUFFER_SIZE events outstanding; the scripts of the MC wrapper never get here: InvNeverFull)
@@ -187,12 +209,12 @@ EnqRecedeOk(p) ==
        /\ re[r] = Add(reg[p].slot, 1)
        /\ re' = [re EXCEPT ![r] = reg[p].slot]
     /\ pc' = [pc EXCEPT ![p] = "full"]
-    /\ UNCHANGED <<rh, rt, rdh, rbuf, sm, wk, reg, gh>>
+    /\ UNCHANGED <<rh, rt, rdh, rbuf, sm, wk, reg, gh, og>>
 EnqRecedeFail(p) ==
     /\ pc[p] = "E3"
     /\ re[reg[p].sid] # Add(reg[p].slot, 1)
     /\ pc' = [pc EXCEPT ![p] = "E2"]
-    /\ UNCHANGED <<ring, sm, wk, reg, gh>>
+    /\ UNCHANGED <<ring, sm, wk, reg, gh, og>>
 
 EnqPublish(p) ==   \* tail CAS(slot -> slot+1); spins until it is our turn; len_after <= 2 -> wake_stream
     /\ pc[p] = "E5"
@@ -202,7 +224,7 @@ EnqPublish(p) ==   \* tail CAS(slot -> slot+1); spins until it is our turn; len_
     /\ IF reg[p].lenb + 1 <= 2
        THEN pc' = [pc EXCEPT ![p] = "W1"] /\ UNCHANGED reg
        ELSE pc' = [pc EXCEPT ![p] = AfterEntry(p)] /\ reg' = [reg EXCEPT ![p].i = @ + 1]
-    /\ UNCHANGED <<rh, re, rdh, rbuf, sm, wk, gh>>
+    /\ UNCHANGED <<rh, re, rdh, rbuf, sm, wk, gh, og>>
 
 \* wake_stream(sid) of a sender
 WakePeek(p) ==     \* [y sm.wake.peek] the unsynchronised look at wakers[sid]
@@ -211,18 +233,18 @@ WakePeek(p) ==     \* [y sm.wake.peek] the unsynchronised look at wakers[sid]
        THEN /\ notified' = Wake(reg[p].sid, notified)
             /\ pc' = [pc EXCEPT ![p] = AfterEntry(p)] /\ reg' = [reg EXCEPT ![p].i = @ + 1]
        ELSE UNCHANGED <<notified, reg>> /\ pc' = [pc EXCEPT ![p] = "W2"]
-    /\ UNCHANGED <<ring, sm, waker, wlock, keep, gh>>
+    /\ UNCHANGED <<ring, sm, waker, wlock, keep, gh, og>>
 WakeLock(p) ==     \* wakers_lock CAS; second look under the lock
     /\ pc[p] = "W2" /\ ~wlock
     /\ wlock' = TRUE
     /\ notified' = Wake(reg[p].sid, notified)
     /\ pc' = [pc EXCEPT ![p] = "W3"]
-    /\ UNCHANGED <<ring, sm, waker, keep, reg, gh>>
+    /\ UNCHANGED <<ring, sm, waker, keep, reg, gh, og>>
 WakeUnlock(p) ==   \* wakers_lock store(false); on to the next entry of the list
     /\ pc[p] = "W3"
     /\ wlock' = FALSE
     /\ pc' = [pc EXCEPT ![p] = AfterEntry(p)] /\ reg' = [reg EXCEPT ![p].i = @ + 1]
-    /\ UNCHANGED <<ring, sm, waker, keep, notified, gh>>
+    /\ UNCHANGED <<ring, sm, waker, keep, notified, gh, og>>
 
 -----------------------------------------------------------------------------
 \* consume (poll_next, and the drain loop of drop_resources)
@@ -233,7 +255,7 @@ DeqFA(p) ==
        /\ reg' = [reg EXCEPT ![p].slot = rdh[r]]
        /\ rdh' = [rdh EXCEPT ![r] = Add(@, 1)]
     /\ pc' = [pc EXCEPT ![p] = "D2"]
-    /\ UNCHANGED <<rh, rt, re, rbuf, sm, wk, gh>>
+    /\ UNCHANGED <<rh, rt, re, rbuf, sm, wk, gh, og>>
 
 DeqLoadTail(p) ==
     /\ pc[p] = "D2"
@@ -243,7 +265,7 @@ DeqLoadTail(p) ==
        THEN /\ reg' = [reg EXCEPT ![p].val = rbuf[r][Idx(reg[p].slot)]]
             /\ pc' = [pc EXCEPT ![p] = "D4"]
        ELSE /\ pc' = [pc EXCEPT ![p] = "D3"] /\ UNCHANGED reg
-    /\ UNCHANGED <<ring, sm, wk, gh>>
+    /\ UNCHANGED <<ring, sm, wk, gh, og>>
 
 DeqRecedeOk(p) ==  \* nothing there.  poll: on to keep_stream_running;  drop: the drain loop ends, report_stream_dropped begins
     /\ pc[p] = "D3"
@@ -253,22 +275,25 @@ DeqRecedeOk(p) ==  \* nothing there.  poll: on to keep_stream_running;  drop: th
     /\ IF reg[p].op = "poll2"
        THEN pc' = [pc EXCEPT ![p] = "cret"] /\ reg' = [reg EXCEPT ![p].res = "end"]          \* nothing again after the end signal: end of stream
        ELSE pc' = [pc EXCEPT ![p] = IF reg[p].op = "drop" THEN "P1" ELSE "K1"] /\ UNCHANGED reg
-    /\ UNCHANGED <<rh, rt, re, rbuf, sm, wk, gh>>
+    /\ UNCHANGED <<rh, rt, re, rbuf, sm, wk, gh, og>>
 DeqRecedeFail(p) ==
     /\ pc[p] = "D3"
     /\ rdh[reg[p].sid] # Add(reg[p].slot, 1)
     /\ pc' = [pc EXCEPT ![p] = "D2"]
-    /\ UNCHANGED <<ring, sm, wk, reg, gh>>
+    /\ UNCHANGED <<ring, sm, wk, reg, gh, og>>
 
 DeqRelease(p) ==   \* head CAS(slot -> slot+1).  poll: the item is the result;  drop: the leftover is discarded, look for the next one
     /\ pc[p] = "D4"
     /\ LET r == reg[p].sid IN
        /\ rh[r] = reg[p].slot
        /\ rh' = [rh EXCEPT ![r] = Add(@, 1)]
-    /\ IF reg[p].op = "drop"
+    /\ IF Kind = "ogre"           \* the handle taken out of the ring is dropped (poll: by the task, once it has looked at the item)
+       THEN pc' = [pc EXCEPT ![p] = "H1"] /\ reg' = [reg EXCEPT ![p].hv = reg[p].val, ![p].rv = reg[p].val,
+                                                                   ![p].res = IF reg[p].op = "drop" THEN @ ELSE "item"]
+       ELSE IF reg[p].op = "drop"
        THEN pc' = [pc EXCEPT ![p] = "D1"] /\ UNCHANGED reg
        ELSE pc' = [pc EXCEPT ![p] = "cret"] /\ reg' = [reg EXCEPT ![p].res = "item", ![p].rv = reg[p].val]
-    /\ UNCHANGED <<rt, re, rdh, rbuf, sm, wk, gh>>
+    /\ UNCHANGED <<rt, re, rdh, rbuf, sm, wk, gh, og>>
 
 \* the rest of poll_next after an empty consume
 KeepRead(p) ==     \* [y sm.keep.read]; told to end -> consume once more before ending (an event may have come in since the empty consume)
@@ -276,23 +301,90 @@ KeepRead(p) ==     \* [y sm.keep.read]; told to end -> consume once more before 
     /\ IF keep[reg[p].sid]
        THEN pc' = [pc EXCEPT ![p] = "R1"] /\ UNCHANGED reg
        ELSE pc' = [pc EXCEPT ![p] = "D1"] /\ reg' = [reg EXCEPT ![p].op = "poll2"]
-    /\ UNCHANGED <<ring, sm, wk, gh>>
+    /\ UNCHANGED <<ring, sm, wk, gh, og>>
 WakerPeek(p) ==    \* [y sm.waker.peek] this task's waker is already there (will_wake) -> Pending; none or another task's -> (re)register
     /\ pc[p] = "R1"
     /\ IF waker[reg[p].sid] = p
        THEN pc' = [pc EXCEPT ![p] = "cret"] /\ reg' = [reg EXCEPT ![p].res = "pending"]
        ELSE pc' = [pc EXCEPT ![p] = "R2"] /\ UNCHANGED reg
-    /\ UNCHANGED <<ring, sm, wk, gh>>
+    /\ UNCHANGED <<ring, sm, wk, gh, og>>
 WakerLock(p) ==    \* wakers_lock CAS; insert
     /\ pc[p] = "R2" /\ ~wlock
     /\ wlock' = TRUE /\ waker' = [waker EXCEPT ![reg[p].sid] = p]
     /\ pc' = [pc EXCEPT ![p] = "R3"]
-    /\ UNCHANGED <<ring, sm, keep, notified, reg, gh>>
+    /\ UNCHANGED <<ring, sm, keep, notified, reg, gh, og>>
 WakerUnlock(p) ==  \* wakers_lock store(false); the inserted waker is woken once (the self-wake)
     /\ pc[p] = "R3"
     /\ wlock' = FALSE /\ notified' = [notified EXCEPT ![p] = TRUE]
     /\ pc' = [pc EXCEPT ![p] = "cret"] /\ reg' = [reg EXCEPT ![p].res = "pending"]
-    /\ UNCHANGED <<ring, sm, waker, keep, gh>>
+    /\ UNCHANGED <<ring, sm, waker, keep, gh, og>>
+
+
+-----------------------------------------------------------------------------
+\* Kind = "ogre": OgreArc::new, the reference counting of send_derived, handle drops, the allocator's free list
+\* (an AtomicMove ring of slot ids, prefilled: alloc = dequeue, dealloc = enqueue; only its four counters matter here)
+
+PoolDeqFA(p) ==      \* free_list.dequeuer_head.fetch_add(1)
+    /\ pc[p] = "A1"
+    /\ reg' = [reg EXCEPT ![p].ps = pl.dh]
+    /\ pl' = [pl EXCEPT !.dh = Add(@, 1)]
+    /\ pc' = [pc EXCEPT ![p] = "A2"]
+    /\ UNCHANGED <<ring, sm, wk, gh, refs, dead, uaf>>
+PoolDeqLoadTail(p) ==  \* free_list.tail.load: a free slot is there (an exhausted allocator -- the send is refused -- is not modelled further)
+    /\ pc[p] = "A2"
+    /\ pc' = [pc EXCEPT ![p] = IF Signed(Sub(pl.t, reg[p].ps)) > 0 THEN "A3" ELSE "full"]
+    /\ UNCHANGED <<ring, sm, wk, reg, gh, og>>
+PoolDeqRelease(p) ==   \* free_list.head CAS (in claim order); the control block is created with references_count = 1; the payload is written
+    /\ pc[p] = "A3"
+    /\ pl.h = reg[p].ps
+    /\ pl' = [pl EXCEPT !.h = Add(@, 1)]
+    /\ refs' = (reg[p].v :> 1) @@ refs
+    /\ pc' = [pc EXCEPT ![p] = "S1"]
+    /\ UNCHANGED <<ring, sm, wk, reg, gh, dead, uaf>>
+SendCount(p) ==        \* running_streams_count(): used_streams_count.load
+    /\ pc[p] = "S1"
+    /\ reg' = [reg EXCEPT ![p].n = count, ![p].i = 0]
+    /\ pc' = [pc EXCEPT ![p] = "S2"]
+    /\ UNCHANGED <<ring, sm, wk, gh, og>>
+SendIncRefs(p) ==      \* increment_references(count): references_count.fetch_add(count) -- BEFORE any copy is handed out
+    /\ pc[p] = "S2"
+    /\ refs' = [refs EXCEPT ![reg[p].v] = @ + reg[p].n]
+    /\ reg' = [reg EXCEPT ![p].hv = reg[p].v, ![p].res = "ok"]
+    /\ pc' = [pc EXCEPT ![p] = IF reg[p].n > 0 THEN "F0" ELSE "H1"]
+    /\ UNCHANGED <<ring, sm, wk, gh, dead, uaf, pl>>
+
+\* where a thread goes once the handle it was dropping is gone
+AfterDrop(p) == IF reg[p].op = "drop" THEN "D1" ELSE "cret"
+HandleDrop(p) ==       \* Drop for OgreArc: references_count.fetch_sub(1); the one that finds 1 destroys the payload and frees the slot
+    /\ pc[p] = "H1"
+    /\ LET v == reg[p].hv IN
+       /\ uaf' = (uaf \/ v \in dead \/ v \notin DOMAIN refs)
+       /\ IF v \in DOMAIN refs
+          THEN /\ refs' = [refs EXCEPT ![v] = @ - 1]
+               /\ IF refs[v] = 1
+                  THEN dead' = dead \cup {v} /\ pc' = [pc EXCEPT ![p] = "Z1"]
+                  ELSE UNCHANGED dead /\ pc' = [pc EXCEPT ![p] = AfterDrop(p)]
+          ELSE UNCHANGED <<refs, dead>> /\ pc' = [pc EXCEPT ![p] = AfterDrop(p)]
+    /\ UNCHANGED <<ring, sm, wk, reg, gh, pl>>
+PoolEnqFA(p) ==        \* free_list.enqueuer_tail.fetch_add(1)
+    /\ pc[p] = "Z1"
+    /\ reg' = [reg EXCEPT ![p].ps = pl.e]
+    /\ pl' = [pl EXCEPT !.e = Add(@, 1)]
+    /\ pc' = [pc EXCEPT ![p] = "Z2"]
+    /\ UNCHANGED <<ring, sm, wk, gh, refs, dead, uaf>>
+PoolEnqLoadHead(p) ==  \* free_list.head.load (the free list cannot be full)
+    /\ pc[p] = "Z2"
+    /\ pc' = [pc EXCEPT ![p] = "Z3"]
+    /\ UNCHANGED <<ring, sm, wk, reg, gh, og>>
+PoolEnqPublish(p) ==   \* free_list.tail CAS (in reservation order)
+    /\ pc[p] = "Z3"
+    /\ pl.t = reg[p].ps
+    /\ pl' = [pl EXCEPT !.t = Add(@, 1)]
+    /\ pc' = [pc EXCEPT ![p] = AfterDrop(p)]
+    /\ UNCHANGED <<ring, sm, wk, reg, gh, refs, dead, uaf>>
+
+OgreStep(p) == \/ PoolDeqFA(p) \/ PoolDeqLoadTail(p) \/ PoolDeqRelease(p) \/ SendCount(p) \/ SendIncRefs(p)
+               \/ HandleDrop(p) \/ PoolEnqFA(p) \/ PoolEnqLoadHead(p) \/ PoolEnqPublish(p)
 
 -----------------------------------------------------------------------------
 \* create_stream_id
@@ -301,21 +393,21 @@ CreateCountA(p) == \* created_streams_count.fetch_add(1)
     /\ pc[p] = "C1"
     /\ created' = created + 1
     /\ pc' = [pc EXCEPT ![p] = "C2"]
-    /\ UNCHANGED <<ring, used, count, vac, vlock, slock, finished, wk, reg, gh>>
+    /\ UNCHANGED <<ring, used, count, vac, vlock, slock, finished, wk, reg, gh, og>>
 CreateCountB(p) == \* used_streams_count.fetch_add(1) -- BEFORE the list is rebuilt
     /\ pc[p] = "C2"
     /\ count' = count + 1
     /\ pc' = [pc EXCEPT ![p] = "C3"]
-    /\ UNCHANGED <<ring, used, vac, vlock, slock, created, finished, wk, reg, gh>>
+    /\ UNCHANGED <<ring, used, vac, vlock, slock, created, finished, wk, reg, gh, og>>
 CreateVLock(p) ==  \* vacant_streams: concurrency_guard CAS
     /\ pc[p] = "C3" /\ ~vlock
     /\ vlock' = TRUE
     /\ pc' = [pc EXCEPT ![p] = "C4"]
-    /\ UNCHANGED <<ring, used, count, vac, slock, created, finished, wk, reg, gh>>
+    /\ UNCHANGED <<ring, used, count, vac, slock, created, finished, wk, reg, gh, og>>
 CreateVLenT(p) ==  \* [y fsm.len.tail]
     /\ pc[p] = "C4"
     /\ pc' = [pc EXCEPT ![p] = "C5"]
-    /\ UNCHANGED <<ring, sm, wk, reg, gh>>
+    /\ UNCHANGED <<ring, sm, wk, reg, gh, og>>
 CreateVPop(p) ==   \* [y fsm.len.head] the length is computed, the oldest vacant id read and the head advanced (under the guard)
     /\ pc[p] = "C5"
     /\ IF Len(vac) = 0
@@ -323,17 +415,17 @@ CreateVPop(p) ==   \* [y fsm.len.head] the length is computed, the oldest vacant
        ELSE /\ reg' = [reg EXCEPT ![p].sid = Head(vac)]
             /\ vac' = Tail(vac)
             /\ pc' = [pc EXCEPT ![p] = "C6"]
-    /\ UNCHANGED <<ring, used, count, vlock, slock, created, finished, wk, gh>>
+    /\ UNCHANGED <<ring, used, count, vlock, slock, created, finished, wk, gh, og>>
 CreateVUnlock(p) == \* concurrency_guard store(false)
     /\ pc[p] = "C6"
     /\ vlock' = FALSE
     /\ pc' = [pc EXCEPT ![p] = "C7"]
-    /\ UNCHANGED <<ring, used, count, vac, slock, created, finished, wk, reg, gh>>
+    /\ UNCHANGED <<ring, used, count, vac, slock, created, finished, wk, reg, gh, og>>
 CreateKeep(p) ==   \* [y sm.keep.set] keep_streams_running[id] := true; then sync_vacant_and_used_streams
     /\ pc[p] = "C7"
     /\ keep' = [keep EXCEPT ![reg[p].sid] = TRUE]
     /\ pc' = [pc EXCEPT ![p] = "Y1"]
-    /\ UNCHANGED <<ring, sm, waker, wlock, notified, reg, gh>>
+    /\ UNCHANGED <<ring, sm, waker, wlock, notified, reg, gh, og>>
 
 -----------------------------------------------------------------------------
 \* report_stream_dropped (after the drain loop)
@@ -342,32 +434,32 @@ DropWLock(p) ==    \* wakers_lock CAS; wakers[s] := None
     /\ pc[p] = "P1" /\ ~wlock
     /\ wlock' = TRUE /\ waker' = [waker EXCEPT ![reg[p].sid] = NoW]
     /\ pc' = [pc EXCEPT ![p] = "P2"]
-    /\ UNCHANGED <<ring, sm, keep, notified, reg, gh>>
+    /\ UNCHANGED <<ring, sm, keep, notified, reg, gh, og>>
 DropWUnlock(p) ==
     /\ pc[p] = "P2"
     /\ wlock' = FALSE
     /\ pc' = [pc EXCEPT ![p] = "P3"]
-    /\ UNCHANGED <<ring, sm, waker, keep, notified, reg, gh>>
+    /\ UNCHANGED <<ring, sm, waker, keep, notified, reg, gh, og>>
 DropCountA(p) ==   \* finished_streams_count.fetch_add(1)
     /\ pc[p] = "P3"
     /\ finished' = finished + 1
     /\ pc' = [pc EXCEPT ![p] = "P4"]
-    /\ UNCHANGED <<ring, used, count, vac, vlock, slock, created, wk, reg, gh>>
+    /\ UNCHANGED <<ring, used, count, vac, vlock, slock, created, wk, reg, gh, og>>
 DropCountB(p) ==   \* used_streams_count.fetch_sub(1) -- BEFORE the list is rebuilt
     /\ pc[p] = "P4"
     /\ count' = count - 1
     /\ pc' = [pc EXCEPT ![p] = "P5"]
-    /\ UNCHANGED <<ring, used, vac, vlock, slock, created, finished, wk, reg, gh>>
+    /\ UNCHANGED <<ring, used, vac, vlock, slock, created, finished, wk, reg, gh, og>>
 DropVPush(p) ==    \* vacant_streams: concurrency_guard CAS; the id is written and the tail advanced (under the guard)
     /\ pc[p] = "P5" /\ ~vlock
     /\ vlock' = TRUE /\ vac' = Append(vac, reg[p].sid)
     /\ pc' = [pc EXCEPT ![p] = "P6"]
-    /\ UNCHANGED <<ring, used, count, slock, created, finished, wk, reg, gh>>
+    /\ UNCHANGED <<ring, used, count, slock, created, finished, wk, reg, gh, og>>
 DropVUnlock(p) ==
     /\ pc[p] = "P6"
     /\ vlock' = FALSE
     /\ pc' = [pc EXCEPT ![p] = "Y1"]
-    /\ UNCHANGED <<ring, used, count, vac, slock, created, finished, wk, reg, gh>>
+    /\ UNCHANGED <<ring, used, count, vac, slock, created, finished, wk, reg, gh, og>>
 
 -----------------------------------------------------------------------------
 \* sync_vacant_and_used_streams: the list is rebuilt in place, one entry per step, under a lock the senders do not take
@@ -377,19 +469,19 @@ SyncLock(p) ==     \* streams_lock CAS; peek_remaining (unsynchronised with the 
     /\ slock' = TRUE
     /\ reg' = [reg EXCEPT ![p].tgt = ListOf(Ids \ Elems(vac)), ![p].k = 0]
     /\ pc' = [pc EXCEPT ![p] = "Y2"]
-    /\ UNCHANGED <<ring, used, count, vac, vlock, created, finished, wk, gh>>
+    /\ UNCHANGED <<ring, used, count, vac, vlock, created, finished, wk, gh, og>>
 SyncWrite(p) ==    \* [y sm.used.write] used[k] := target[k]
     /\ pc[p] = "Y2"
     /\ used' = [used EXCEPT ![reg[p].k] = reg[p].tgt[reg[p].k]]
     /\ reg' = [reg EXCEPT ![p].k = @ + 1]
     /\ pc' = [pc EXCEPT ![p] = IF reg[p].k + 1 < MaxS THEN "Y2" ELSE "Y3"]
-    /\ UNCHANGED <<ring, count, vac, vlock, slock, created, finished, wk, gh>>
+    /\ UNCHANGED <<ring, count, vac, vlock, slock, created, finished, wk, gh, og>>
 SyncUnlock(p) ==   \* streams_lock store(false); create / drop return
     /\ pc[p] = "Y3"
     /\ slock' = FALSE
     /\ pc' = [pc EXCEPT ![p] = "cret"]
     /\ reg' = [reg EXCEPT ![p].res = IF reg[p].op = "create" THEN "id" ELSE "dropped", ![p].rv = reg[p].sid]
-    /\ UNCHANGED <<ring, used, count, vac, vlock, created, finished, wk, gh>>
+    /\ UNCHANGED <<ring, used, count, vac, vlock, created, finished, wk, gh, og>>
 
 -----------------------------------------------------------------------------
 \* cancel_all_streams: every possible id (not the live list -- see the fixed entry FX-C07 in known_findings.json)
@@ -398,30 +490,30 @@ XAfterWake(p) == IF reg[p].i + 1 < MaxS THEN "X1" ELSE "cret"
 CancelNext(p) ==   \* [y sm.used.read]
     /\ pc[p] = "X1"
     /\ pc' = [pc EXCEPT ![p] = "X2"]
-    /\ UNCHANGED <<ring, sm, wk, reg, gh>>
+    /\ UNCHANGED <<ring, sm, wk, reg, gh, og>>
 CancelClear(p) ==  \* [y sm.keep.clear] keep[i] := FALSE; wake_stream(i) begins
     /\ pc[p] = "X2"
     /\ keep' = [keep EXCEPT ![reg[p].i] = FALSE]
     /\ pc' = [pc EXCEPT ![p] = "XW1"]
-    /\ UNCHANGED <<ring, sm, waker, wlock, notified, reg, gh>>
+    /\ UNCHANGED <<ring, sm, waker, wlock, notified, reg, gh, og>>
 CancelWakePeek(p) ==
     /\ pc[p] = "XW1"
     /\ IF waker[reg[p].i] # NoW
        THEN /\ notified' = Wake(reg[p].i, notified)
             /\ pc' = [pc EXCEPT ![p] = XAfterWake(p)] /\ reg' = [reg EXCEPT ![p].i = @ + 1]
        ELSE UNCHANGED <<notified, reg>> /\ pc' = [pc EXCEPT ![p] = "XW2"]
-    /\ UNCHANGED <<ring, sm, waker, wlock, keep, gh>>
+    /\ UNCHANGED <<ring, sm, waker, wlock, keep, gh, og>>
 CancelWakeLock(p) ==
     /\ pc[p] = "XW2" /\ ~wlock
     /\ wlock' = TRUE
     /\ notified' = Wake(reg[p].i, notified)
     /\ pc' = [pc EXCEPT ![p] = "XW3"]
-    /\ UNCHANGED <<ring, sm, waker, keep, reg, gh>>
+    /\ UNCHANGED <<ring, sm, waker, keep, reg, gh, og>>
 CancelWakeUnlock(p) ==
     /\ pc[p] = "XW3"
     /\ wlock' = FALSE
     /\ pc' = [pc EXCEPT ![p] = XAfterWake(p)] /\ reg' = [reg EXCEPT ![p].i = @ + 1]
-    /\ UNCHANGED <<ring, sm, waker, keep, notified, gh>>
+    /\ UNCHANGED <<ring, sm, waker, keep, notified, gh, og>>
 
 -----------------------------------------------------------------------------
 \* return of the API-level operation (not a scheduling point of its own: the thread gets here within its last step)
@@ -439,7 +531,7 @@ ChanRet(p) ==
        \* what a listener must never yield: everything accepted before its creation was asked for
        /\ old'  = IF r.op = "create" THEN [old EXCEPT ![r.sid] = r.snap] ELSE old
        /\ owed' = IF r.op = "create" THEN [owed EXCEPT ![r.sid] = {}] ELSE owed
-    /\ UNCHANGED <<ring, sm, wk, reg>>
+    /\ UNCHANGED <<ring, sm, wk, reg, og>>
 
 ChanStep(p) == \/ FanRead(p) \/ EnqFA(p) \/ EnqLoadHead(p) \/ EnqRecedeOk(p) \/ EnqRecedeFail(p) \/ EnqPublish(p)
                \/ WakePeek(p) \/ WakeLock(p) \/ WakeUnlock(p)
@@ -449,6 +541,7 @@ ChanStep(p) == \/ FanRead(p) \/ EnqFA(p) \/ EnqLoadHead(p) \/ EnqRecedeOk(p) \/ 
                \/ DropWLock(p) \/ DropWUnlock(p) \/ DropCountA(p) \/ DropCountB(p) \/ DropVPush(p) \/ DropVUnlock(p)
                \/ SyncLock(p) \/ SyncWrite(p) \/ SyncUnlock(p)
                \/ CancelNext(p) \/ CancelClear(p) \/ CancelWakePeek(p) \/ CancelWakeLock(p) \/ CancelWakeUnlock(p)
+               \/ OgreStep(p)
 
 -----------------------------------------------------------------------------
 \* invariants of the channel itself
@@ -459,6 +552,16 @@ InvLocks == /\ wlock <=> (\E p \in Procs : pc[p] \in {"W3", "R3", "XW3", "P2"})
             /\ vlock <=> (\E p \in Procs : pc[p] \in {"C4", "C5", "C6", "P6"})
 InvNeverFull == \A p \in Procs : pc[p] # "full"
 NoPanic == \A p \in Procs : pc[p] # "panic"
+\* Kind = "ogre" (C05 / C14 at the level of the channel): copies of an event in the listeners' rings
+Copies(v) == Cardinality({<<r, i>> \in Ids \X (1..N) : i <= Len(Q(r)) /\ Q(r)[i] = v})
+\* no handle is ever used after its event was destroyed, and a destroyed event has no copy left in any ring
+InvNoUseAfterFree == ~uaf /\ \A v \in dead : Copies(v) = 0
+\* the free list's counters stay in order
+InvPoolBounds == Signed(Sub(pl.t, pl.h)) >= 0 /\ Signed(Sub(pl.e, pl.t)) >= 0 /\ Signed(Sub(pl.dh, pl.h)) >= 0 /\ Sub(pl.t, pl.h) <= N
+\* whenever no operation is in progress the counter of a live event is the number of its copies still queued (handles are dropped inside
+\* the operations that obtain them), and every event whose copies were all consumed has been destroyed
+AllIdle == \A p \in Procs : pc[p] = "idle"
+InvRefsExact == (Kind = "ogre" /\ AllIdle /\ finished = 0 /\ created = count) => \A v \in DOMAIN refs : IF v \in dead THEN refs[v] = 0 ELSE refs[v] = Copies(v) /\ refs[v] > 0
 \* the running-streams counter equals the number of listeners whenever no create / drop is in progress (C10)
 Churning == \E p \in Procs : reg[p].op \in {"create", "drop"} /\ pc[p] # "idle"
 InvRunningCount == ~Churning => (count = MaxS - Len(vac) /\ count = created - finished)
